@@ -21,8 +21,8 @@ def kind(r):
     return r.get('kind')
 
 
-def render_ast(body, unit='    ', sp=''):
-    rd = Renderer(sp)
+def render_ast(body, unit='    ', sp='', rnd=None):
+    rd = Renderer(sp, rnd)
     rd.block(body, 0) if body else rd.emit(0, 'PASS')
     text = '\n'.join(unit * d + t for d, t in rd.lines)
     return text, rd
@@ -60,7 +60,7 @@ def ast_cases(g, n, weights=None, size=(6, 18), max_depth=4, family='ast', opts=
         ag = AstGen(g.r, weights, max_depth)
         body, _ = ag.program(g.r.randint(*size))
         unit = g.units() if units else '    '
-        text, rd = render_ast(body, unit, g.r.choice(['', '', ' ']))
+        text, rd = render_ast(body, unit, g.r.choice(['', '', ' ']), g.r if g.chance(0.4) else None)
         it = Interp(rd.line_of, None)
         exp = it.program(body)
         if exp[0] == 'err' and exp[1] == 'too-long': continue
